@@ -14,6 +14,19 @@ pub fn cfg_line(out: &mut Out) {
 }
 
 /// a writer that counts what is written, to compare with the `usize` the encoder returns
+/// a writer that accepts at most 7 bytes per `write` call (what files, sockets and pipes may do): an encoder must
+/// still deliver every byte and report the true length
+struct ChunkW(Vec<u8>);
+impl std::io::Write for ChunkW {
+    fn write(&mut self, b: &[u8]) -> std::io::Result<usize> {
+        let n = b.len().min(7);
+        self.0.extend_from_slice(&b[..n]);
+        Ok(n)
+    }
+    fn flush(&mut self) -> std::io::Result<()> {
+        Ok(())
+    }
+}
 struct CountW(usize);
 impl std::io::Write for CountW {
     fn write(&mut self, b: &[u8]) -> std::io::Result<usize> {
@@ -76,6 +89,20 @@ pub fn on_value<T: Ty>(out: &mut Out, v: &T, rng: &mut R, mutations: usize) {
     let mut w = CountW(0);
     let ret = v.consensus_encode(&mut w).unwrap();
     out.s("encoder_reports_length", ret == w.0 && ret == b.len(), || format!("{} {:?}", T::NAME, v));
+    if b.len() <= 100_000 {
+        let mut cw = ChunkW(Vec::new());
+        let r = v.consensus_encode(&mut cw);
+        out.s("encoder_reports_length", matches!(r, Ok(n) if n == cw.0.len()) && cw.0 == b, || format!("{} through a writer taking 7 bytes per call: reported {:?}, written {} of {} bytes, equal to serialize(): {}", T::NAME, r.as_ref().ok(), cw.0.len(), b.len(), cw.0 == b));
+        // and into a buffer that is too small: an error, not a truncated success
+        if b.len() >= 2 {
+            let mut small = vec![0u8; b.len() - 1];
+            let cap = small.len();
+            let mut sl: &mut [u8] = &mut small[..];
+            let r = v.consensus_encode(&mut sl);
+            let written = cap - sl.len();
+            out.s("encoder_reports_length", match &r { Err(_) => true, Ok(n) => *n == written }, || format!("{} into a buffer of {} bytes for a {}-byte encoding: reported {:?}, written {}", T::NAME, cap, b.len(), r.as_ref().ok(), written));
+        }
+    }
     let back = std::panic::catch_unwind(|| deserialize::<T>(&b));
     out.s("value_roundtrips", matches!(&back, Ok(Ok(v2)) if v2 == v), || format!("{} bytes={} value={:?}", T::NAME, hex(&b), v));
     on_bytes::<T>(out, &b, "valid");
